@@ -536,6 +536,10 @@ def run(ctx):
         for si, ((tf, initf, bf), (tsl, inits, bs)) in enumerate(zip(fres, sres)):
             kf = [b.key() for b in bf]
             ks = [b.key() for b in bs]
+            if not kf or not ks:
+                ctx.rep.note(f"{fcls} / {scls}: scan #{si}: the update blocks of one side were not recognised "
+                             f"({len(kf)} fast, {len(ks)} slow); the sequence comparison does not apply")
+                continue
             ctx.ob("SIB-1", f"{fcls} / {scls}: scan #{si} applies the same sequence of (spin, site, constant, random "
                    f"column) blocks", kf == ks, f"fast {bf}" + ("" if kf == ks else f"  vs slow {bs}"), fstep)
             # scanned index range
@@ -589,8 +593,11 @@ def run(ctx):
     else:
         ctx.ob("PAIR-2", "propagator_cpmc_nn: on-site scan followed by neighbour scan", False, f"{len(nres)} scans", nstep)
     check_hs_tables(ctx, p)
+    if n_blocks == 0:
+        raise AnalysisError("no CPMC update block recognised (the propagate scans vanished)")
     if n_blocks < 12 and not truncated:
-        raise AnalysisError(f"only {n_blocks} CPMC update blocks recognised")
+        # a block written in a form the peeling does not recognise is not judged; the recognised ones are
+        ctx.rep.note(f"only {n_blocks} of 12 CPMC update blocks recognised; the others are not judged")
     # typestate over the sampler for the four classes
     rep = ts.rep_change_functions(p)
     entry = p.func("sampling.sampler.propagate_phaseless")
